@@ -51,6 +51,7 @@ class Flow:
             self.params.add(a.kwarg.arg)
         self.defs: dict[str, list] = {}
         self._loops: list = []
+        self.stmt_loops: list = []  # `for` statements only (comprehension variables live in their own scope)
         for n in ast.walk(fn_node):
             if isinstance(n, (ast.Assign, ast.AnnAssign)) and n.value is not None:
                 for t in (n.targets if isinstance(n, ast.Assign) else [n.target]):
@@ -65,6 +66,8 @@ class Flow:
                 self._add(n.target.id, n.value)
             elif isinstance(n, (ast.For, ast.AsyncFor, ast.comprehension)):
                 self._loops.append((n.target, n.iter))
+                if not isinstance(n, ast.comprehension):
+                    self.stmt_loops.append((n.target, n.iter))
         # loop variables last: their iterables may be locals themselves
         for tgt, it in self._loops:
             self._bind_loop(tgt, it)
@@ -260,9 +263,10 @@ class Flow:
             e = new
         return e
 
-    def alts(self, expr) -> list:
+    def alts(self, expr, stop=()) -> list:
+        """`stop`: names left as they are (e.g. the loop variable a condition is about)."""
         out, seen_txt = [], set()
-        work = [(expr, frozenset())]
+        work = [(expr, frozenset(stop))]
         steps = 0
         while work and len(out) < _CAP and steps < 400:
             steps += 1
@@ -552,3 +556,48 @@ def const_seq(flow: Flow | None, expr, resolve_global):
             return None
         res = s if res is None else (res & s)  # what is guaranteed on every alternative
     return res
+
+
+def assume_truth(flow: Flow, test, var: str, facts: dict):
+    """Three-valued truth of a condition about the variable `var` under facts in the vocabulary of sa.kinds.tv
+    ({class name: isinstance(var, class)}, 'notnone:<var>', 'truthy:<var>'): named sub-conditions, aliases of var and hoisted
+    tuples of classes are expanded first; several possible expansions must agree."""
+    from ..kinds import tv
+
+    def norm(t):
+        # isinstance(x, <name of a tuple of classes>) -> the tuple itself
+        def f(n):
+            if isinstance(n, ast.Call) and isinstance(n.func, ast.Name) and n.func.id == "isinstance" and len(n.args) == 2 and not isinstance(n.args[1], ast.Tuple):
+                o = flow.origins(n.args[1])
+                if len(o) == 1 and isinstance(o[0], ast.Tuple):
+                    return ast.copy_location(ast.Call(func=n.func, args=[n.args[0], o[0]], keywords=[]), n)
+            return None
+
+        return _rewrite(t, f)
+
+    def truth(a):
+        if isinstance(a, ast.Constant):
+            return bool(a.value)  # a literal has a known truth value (e.g. the `None` a result variable starts with)
+        return tv(norm(a), var, facts)
+
+    vals = {truth(a) for a in flow.alts(test, stop=(var,))}
+    return vals.pop() if len(vals) == 1 else None
+
+
+def reach_assuming(g, truth, avoid=lambda n: False):
+    """Nodes of the CFG g reachable from its entry when the outcome of each test node is truth(test expr) -> True | False | None."""
+    seen, work = set(), [g.entry]
+    while work:
+        n = work.pop()
+        if n in seen or avoid(n):
+            continue
+        seen.add(n)
+        succ = n.succ
+        if n.kind == "test":
+            v = truth(n.ast)
+            if v is True:
+                succ = [(m, l) for m, l in succ if l != "false"]
+            elif v is False:
+                succ = [(m, l) for m, l in succ if l != "true"]
+        work += [m for m, _ in succ if m not in seen]
+    return seen
